@@ -130,7 +130,15 @@ class OverlapSite:
         if t == so:
             return "s"
         if isinstance(e0, ast.BinOp) and isinstance(e0.op, ast.Add):
-            l, r = norm(strip_int(e0.left)), norm(strip_int(e0.right))
+            def _res(x, d=0):
+                x = strip_int(x)
+                if isinstance(x, ast.Name) and d < 3:
+                    ds = self.local.get(x.id)
+                    if ds and len(ds) == 1:
+                        return _res(ds[0], d + 1)
+                return x
+
+            l, r = norm(_res(e0.left)), norm(_res(e0.right))
             if {l, r} == {so, ln}:
                 return "e"
             la, ra = self.atom_of(e0.left, depth + 1), self.atom_of(e0.right, depth + 1)
